@@ -91,7 +91,7 @@ func (m Mut) Sx() string {
 		return fmt.Sprintf("(trunc %d)", m.N)
 	case "word":
 		return fmt.Sprintf("(word %d %d)", m.I, m.K)
-	case "wordv":
+	case "wordv", "wordw":
 		return fmt.Sprintf("(wordv %d %d)", m.I, m.V)
 	case "raw":
 		return "(raw " + SxBytes(m.Raw) + ")"
